@@ -1,6 +1,8 @@
-(* Executable tests of the statements of PassSpec.v on generated (cfg, oracle list) inputs.
-   Only [Example ... vm_compute] checks; nothing here is used by the proofs. *)
-From ZenoV Require Import Tree.Item Tree.ItemSpec Tree.TreeHarness Stage.Pass Stage.PassSpec.
+(* Executable tests of the statements of PassSpec.v on generated (cfg, oracle list) inputs: the
+   statements were tested this way BEFORE they were proved (that is how the first formulation of
+   the C06 invariants, [redir_ok_orig] / [depth_ok_orig], was found to be false - see the failure
+   codes 8 and 9 below).  Only [Example ... vm_compute] checks; nothing here is used by the proofs. *)
+From ZenoV Require Import Tree.Item Tree.ItemSpec Stage.Pass Stage.PassSpec Stage.PassClosed.
 Open Scope N_scope.
 
 (* ---- deterministic pseudo-random oracles ---- *)
@@ -33,59 +35,14 @@ Definition gen_oracle (s : N) (U : N) : oracle :=
 Definition gen_oracles (s U : N) (n : nat) : list oracle :=
   map (fun k => gen_oracle (s * 101 + N.of_nat k) U) (seq 0 n).
 
-(* ---- boolean versions of the invariants ---- *)
-Definition level_okb (t : item) : bool :=
-  let D := max_depth t in
-  forallb (fun lvl =>
-    forallb (fun n => if Nat.eqb lvl D then status_eqb (st_of n) Fresh
-                      else negb (pending_st (st_of n))) (nodes_at lvl t)) (seq 0 (S D)).
-
-Definition inv_code (t : item) (next : N) : nat :=
-  if negb (nodupN (ids t)) then 1
-  else if negb (forallb (fun i => i <? next) (ids t)) then 2
-  else if negb (Nat.eqb (check_consistency t) 0) then 3
-  else if negb (level_okb t) then 4
-  else if negb (closed t) then 5
-  else if negb (has_work t) then 6
-  else if negb (nodupN (worked_urls t)) then 7
-  else 0%nat.
-
-(* candidate repairs *)
-Fixpoint redir_ok2 (c : cfg) (par : option info) (t : item) : bool :=
-  match t with
-  | Node i cs =>
-    (nredir i <=? max_redirect c)
-    && match par with
-       | None => nredir i =? 0
-       | Some p => match nst p with
-                   | GotRedirected => nredir i =? nredir p + 1
-                   | GotChildren => nredir i =? 0
-                   | _ => (nredir i =? 0) || (nredir i =? nredir p + 1)
-                   end
-       end
-    && forallb (redir_ok2 c (Some i)) cs
-  end.
-(* asset depth, structural: number of asset edges (child with nredir = 0) from the seed *)
-Fixpoint adepth_ok (bound : nat) (ad : nat) (t : item) : bool :=
-  match t with
-  | Node i cs => Nat.leb ad bound
-                 && forallb (fun k => adepth_ok bound (if nredir (inf k) =? 0 then S ad else ad) k) cs
-  end.
-Fixpoint live_depth_ok (d : nat) (t : item) : bool :=
-  match t with
-  | Node i cs => (negb (has_work_st (nst i)) || Nat.leb d 4)
-                 && forallb (fun k => live_depth_ok (dwr_child d k) k) cs
-  end.
-Definition mode := 2%nat.
-Definition invb_code (c : cfg) (t : item) (next : N) : nat :=
-  if Nat.eqb mode 0 && negb (redir_ok c 0 t) then 8
-  else if Nat.eqb mode 1 && negb (domains_crawl c) && negb (depth_ok t) then 9
-  else if negb (redir_ok2 c None t) then 10
+(* ---- the statements, evaluated pass by pass; result: (pass index, failure code) or None ---- *)
+Definition inv_code (c : cfg) (t : item) (next : N) : nat :=
+  if negb (invb t next) then 1
+  else if negb (redir_ok c None t) then 10
   else if negb (domains_crawl c) && negb (adepth_ok 3 0 t) then 11
-  else if negb (domains_crawl c) && negb (live_depth_ok (dwr_seed t) t) then 12
+  else if negb (domains_crawl c) && negb (pending_depth_ok (dwr_seed t) t) then 12
   else 0%nat.
 
-(* run, checking the statements pass by pass; result: (pass index, failure code) or None *)
 Fixpoint run_check (c : cfg) (k : nat) (os : list oracle) (st : item * N) : option (nat * nat) :=
   match os with
   | [] => None
@@ -95,18 +52,29 @@ Fixpoint run_check (c : cfg) (k : nat) (os : list oracle) (st : item * N) : opti
     | Ok (t, next, DFinish) =>
       if negb (no_pending t) then Some (k, 20%nat)
       else if negb (Nat.eqb (check_consistency t) 0) then Some (k, 21%nat)
-      else if negb (nodupN (ids t)) then Some (k, 22%nat)
+      else if negb (nodupb (ids t)) then Some (k, 22%nat)
       else None
     | Ok (t, next, DFeedback) =>
-      match inv_code t next with
+      match inv_code c t next with
       | O => if negb (Nat.eqb (max_depth t) (S (max_depth (fst st)))) then Some (k, 30%nat)
              else if negb (snd st <=? next) then Some (k, 31%nat)
-             else match invb_code c t next with
-                  | O => run_check c (S k) r (t, next)
-                  | e => Some (k, e)
-                  end
+             else run_check c (S k) r (t, next)
       | e => Some (k, e)
       end
+    end
+  end.
+
+(* the first formulation: codes 8 (redirect counters) and 9 (status-based depth of every node) *)
+Fixpoint run_check_orig (depth : bool) (c : cfg) (k : nat) (os : list oracle) (st : item * N) : option (nat * nat) :=
+  match os with
+  | [] => None
+  | o :: r =>
+    match pass c o st with
+    | Ok (t, next, DFeedback) =>
+      if negb depth && negb (redir_ok_orig c 0 t) then Some (k, 8%nat)
+      else if depth && negb (domains_crawl c) && negb (depth_ok_orig t) then Some (k, 9%nat)
+      else run_check_orig depth c (S k) r (t, next)
+    | _ => None
     end
   end.
 
@@ -114,18 +82,36 @@ Definition cfgs : list cfg :=
   [Cfg 0 false false; Cfg 1 false false; Cfg 2 false false; Cfg 3 false true;
    Cfg 1 true false; Cfg 2 true true; Cfg 20 false false].
 
-Definition failures (seeds : list nat) (U : N) (n : nat) : list (nat * nat * (nat * nat)) :=
+Definition failures (chk : cfg -> nat -> list oracle -> item * N -> option (nat * nat))
+           (seeds : list nat) (U : N) (n : nat) : list (nat * nat * (nat * nat)) :=
   flat_map (fun s =>
     flat_map (fun ci =>
       match nth_error cfgs ci with
       | None => []
-      | Some c => match run_check c 0 (gen_oracles (N.of_nat s) U n) (seed0 7 0) with
+      | Some c => match chk c 0%nat (gen_oracles (N.of_nat s) U n) (seed0 7 0) with
                   | None => []
                   | Some e => [(s, ci, e)]
                   end
       end) (seq 0 (length cfgs))) seeds.
 
+(* boundary trees: well-formed, counters bounded, pending depth bounded *)
+Definition boundary_fail (seeds : list nat) (U : N) (n : nat) : list (nat * nat) :=
+  flat_map (fun s => flat_map (fun ci =>
+    match nth_error cfgs ci with
+    | None => []
+    | Some c =>
+      if forallb (fun x => nodupb (ids x) && Nat.eqb (check_consistency x) 0 && redir_ok c None x
+                           && (domains_crawl c || pending_depth_ok (dwr_seed x) x))
+                 (run_trees c (gen_oracles (N.of_nat s) U n) (seed0 7 0))
+      then [] else [(s, ci)]
+    end) (seq 0 (length cfgs))) seeds.
 
+Definition fetch_fail (seeds : list nat) (U : N) (n : nat) : list (nat * nat) :=
+  flat_map (fun s => flat_map (fun c =>
+     let f := run_fetched c (gen_oracles (N.of_nat s) U n) (seed0 7 0) in
+     if nodupb (map fst f) && nodupb (map snd f) then [] else [(s, length f)]) cfgs) seeds.
+
+(* the generated runs are not trivial: number of passes and final tree size of a sample *)
 Fixpoint run_len (c : cfg) (os : list oracle) (st : item * N) : nat * nat :=
   match os with
   | [] => (0, size (fst st))%nat
@@ -136,35 +122,24 @@ Fixpoint run_len (c : cfg) (os : list oracle) (st : item * N) : nat * nat :=
               end
   end.
 
+Example sample_is_nontrivial :
+  let l := map (fun s => run_len (Cfg 2 true false) (gen_oracles (N.of_nat s) 40 10) (seed0 7 0)) (seq 0 30) in
+  (10 <= length (filter (fun x => Nat.leb 5 (fst x) && Nat.leb 12 (snd x)) l))%nat.
+Proof. vm_compute. repeat constructor. Qed.
 
+Example statements_hold_on_samples :
+  failures run_check (seq 0 12) 12 16 = [] /\ failures run_check (seq 345 6) 40 12 = []
+  /\ failures run_check (seq 500 12) 5 14 = [].
+Proof. vm_compute. repeat split. Qed.
 
+Example boundaries_hold_on_samples : boundary_fail (seq 0 10) 12 14 = [] /\ boundary_fail (seq 348 4) 40 12 = [].
+Proof. vm_compute. split; reflexivity. Qed.
 
-(* adversarial chain: redirect whenever allowed, else one new asset *)
-Definition adv_oracle (mr : N) (k : N) : oracle :=
-  Oracle (fun id => POk (1000 + id) false false) (fun _ => false) (fun _ => false)
-         (fun id => Some (Resp (k mod (mr + 1) <? mr) (100 + k) true false [200 + k])).
-Definition adv_oracles (mr : N) (n : nat) := map (fun k => adv_oracle mr (N.of_nat k)) (seq 0 n).
-Eval vm_compute in (map (fun mr => run_len (Cfg mr false false) (adv_oracles mr 60) (seed0 7 0)) [0;1;2;3;5]).
+Example fetch_once_holds_on_samples : fetch_fail (seq 0 12) 12 16 = [] /\ fetch_fail (seq 500 12) 5 14 = [].
+Proof. vm_compute. split; reflexivity. Qed.
 
-(* (e): URLs fetched by non-seed nodes over the whole life *)
-Definition fetched (t : item) : list (N * N) :=
-  map (fun n => (id_of n, url_of n)) (filter (fun n => status_eqb (st_of n) PreProcessed) (nonseed_nodes t)).
-Fixpoint run_fetched (c : cfg) (os : list oracle) (st : item * N) : list (N * N) :=
-  match os with
-  | [] => []
-  | o :: r =>
-    match pre_worker o (fst st) with
-    | Ok t1 => fetched t1 ++ match pass c o st with
-                             | Ok (t, next, DFeedback) => run_fetched c r (t, next)
-                             | _ => []
-                             end
-    | Panic _ => []
-    end
-  end.
-Definition fetch_fail (seeds : list nat) (U : N) (n : nat) :=
-  flat_map (fun s => flat_map (fun c =>
-     let f := run_fetched c (gen_oracles (N.of_nat s) U n) (seed0 7 0) in
-     if nodupN (map fst f) && nodupN (map snd f) then [] else [(s, length f)]) cfgs) seeds.
-Eval vm_compute in (fetch_fail (seq 0 300) 12 16).
-Eval vm_compute in (fetch_fail (seq 500 150) 5 14).
-Eval vm_compute in (map (fun s => length (run_fetched (Cfg 2 false false) (gen_oracles (N.of_nat s) 12 16) (seed0 7 0))) (seq 0 40)).
+(* the first formulation fails on the same samples *)
+Example first_formulation_fails_on_samples :
+  (1 <= length (failures (run_check_orig false) (seq 0 4) 12 16))%nat
+  /\ (1 <= length (failures (run_check_orig true) (seq 350 1) 40 14))%nat.
+Proof. vm_compute. split; repeat constructor. Qed.
